@@ -86,7 +86,7 @@ var Mutants = []Mutant{
 	{ID: "rune-cache-extended", Props: []string{"C11"}, Rule: "R-RUNES/pkg/evaluator", File: "pkg/evaluator/evaluator.go", Find: "\t\treturn &stringVal{V: left.V + right.V}, nil", Replace: "\t\tresult := &stringVal{V: left.V + right.V}\n\t\tif left.runeSlice != nil {\n\t\t\tresult.runeSlice = append(left.runeSlice, right.runes()...)\n\t\t}\n\t\treturn result, nil", Expect: "#rune-cache", Describe: "concatenation extends the left operand's cached rune view: two results share a backing array"},
 	{ID: "scope-underscore-prefix", Props: []string{"C05"}, Rule: "R-DECLCHECK", File: "pkg/parser/scope.go", Find: "\tif name != \"_\" {\n\t\ts.vars[name] = v\n\t}", Replace: "\tif len(name) > 0 && name[0] != '_' {\n\t\ts.vars[name] = v\n\t}", Expect: "(*scope).set#only-underscore-is-anonymous", Describe: "every identifier starting with an underscore is invisible to the static scope"},
 	{ID: "numlit-error-at-next-token", Props: []string{"C03"}, Rule: "R-ERRLOC", File: "pkg/parser/expression.go", Find: "p.appendErrorForToken(err.Error(), tok)", Replace: "p.appendError(err.Error())", Expect: "parseLiteral#appendError", Describe: "`x := 1.2.3 + 4` is reported at the + instead of at the number"},
-	{ID: "loopvar-in-scope-before-range", Props: []string{"C05"}, Rule: "R-DECLCHECK", File: "pkg/parser/parser.go", Find: "\t\tp.advance() // advance past loopVarName\n\t\tp.assertToken(lexer.DECLARE)", Replace: "\t\tp.scope.set(loopVar.Name, loopVar)\n\t\tp.advance() // advance past loopVarName\n\t\tp.assertToken(lexer.DECLARE)", Expect: "parseForStatement#loopvar-after-range", Describe: "`for x := range x` refers to the loop variable itself"},
+	{ID: "loopvar-in-scope-before-range", Props: []string{"C05", "C10"}, Rule: "R-DECLCHECK", File: "pkg/parser/parser.go", Find: "\t\tp.advance() // advance past loopVarName\n\t\tp.assertToken(lexer.DECLARE)", Replace: "\t\tp.scope.set(loopVar.Name, loopVar)\n\t\tp.advance() // advance past loopVarName\n\t\tp.assertToken(lexer.DECLARE)", Expect: "parseForStatement#loopvar-after-range", Describe: "`for x := range x` refers to the loop variable itself"},
 	// C05 / C06
 	{ID: "break-no-eol", Props: []string{"C05", "C06"}, Rule: "R-EOLSTATE", File: "pkg/parser/parser.go", Find: "\tp.advance() // advance past BREAK token\n\tp.assertEOL()\n", Replace: "\tp.advance() // advance past BREAK token\n", Expect: "parseBreakStatement#skip", Describe: "text after break is skipped"},
 	{ID: "if-end-no-eol", Props: []string{"C05", "C06"}, Rule: "R-EOLSTATE", File: "pkg/parser/parser.go", Find: "\tp.assertEnd()\n\tp.advance()\n\tp.assertEOL()\n\tp.recordComment(ifStmt)", Replace: "\tp.assertEnd()\n\tp.advance()\n\tp.recordComment(ifStmt)", Expect: "parseIfStatement#skip", Describe: "text after the end of an if is skipped"},
